@@ -434,3 +434,279 @@ Proof.
   apply tally_count in Hin. destruct Hin as [Hm _]. subst m.
   subst p. simpl ndiv. rewrite total_tally_Q, nat_N_Z. reflexivity.
 Qed.
+
+(* ================================================================ D. coverage arithmetic *)
+
+Theorem with_markov_cov_one : forall (cov : Q) n (c : counter QNum),
+  (cov == 1)%Q -> @with_markov QNum cov n c = c.
+Proof.
+  intros cov n c H. unfold with_markov. simpl.
+  apply Qeq_bool_iff in H. rewrite H. reflexivity.
+Qed.
+
+Lemma Qeq_bool_false : forall a b : Q, ~ (a == b)%Q -> Qeq_bool a b = false.
+Proof.
+  intros a b H. destruct (Qeq_bool a b) eqn:E; [|reflexivity].
+  apply Qeq_bool_iff in E. contradiction.
+Qed.
+
+Theorem with_markov_cov_zero : forall (cov : Q) n (c : counter QNum),
+  (cov == 0)%Q -> @with_markov QNum cov n c = [(M_key, 1%Q)].
+Proof.
+  intros cov n c H. unfold with_markov. simpl.
+  rewrite Qeq_bool_false.
+  - apply Qeq_bool_iff in H. rewrite H. reflexivity.
+  - intro E. rewrite H in E. discriminate E.
+Qed.
+
+Theorem with_markov_other : forall (cov : Q) n (c : counter QNum),
+  ~ (cov == 1)%Q -> ~ (cov == 0)%Q ->
+  @with_markov QNum cov n c = dict_set M_key (inject_Z (Z.of_N n) / cov - inject_Z (Z.of_N n))%Q c
+  /\ (inject_Z (Z.of_N n) / cov - inject_Z (Z.of_N n) == inject_Z (Z.of_N n) * (1 / cov - 1))%Q.
+Proof.
+  intros cov n c H1 H0. split.
+  - unfold with_markov. simpl.
+    rewrite (Qeq_bool_false _ _ H1), (Qeq_bool_false _ _ H0). reflexivity.
+  - unfold Qdiv. ring.
+Qed.
+
+Lemma dict_set_absent : forall {V} k (v : V) d,
+  ~ In k (map fst d) -> dict_set k v d = d ++ [(k, v)].
+Proof.
+  intros V k v d. induction d as [|[k' v'] d IH]; simpl; intro H.
+  - reflexivity.
+  - destruct (str_eqb k k') eqn:E.
+    + apply str_eqb_eq in E. subst. tauto.
+    + rewrite IH by tauto. reflexivity.
+Qed.
+
+Lemma total_Q_snoc : forall (c : counter QNum) k (m : Q),
+  (total (c ++ [(k, m)]) == total c + m)%Q.
+Proof.
+  intros c k m. rewrite !total_Q_qsum, map_app, qsum_app. simpl. ring.
+Qed.
+
+Theorem markov_probability_Q : forall (cov : Q) n (c : counter QNum),
+  (0 < cov)%Q -> (cov < 1)%Q -> (0 < n)%N -> ~ In M_key (map fst c) ->
+  (total c == inject_Z (Z.of_N n))%Q ->
+  exists p, In (M_key, p) (calc_probs (@with_markov QNum cov n c)) /\ (p == 1 - cov)%Q.
+Proof.
+  intros cov n c H0 H1 Hn Hnot Ht.
+  assert (Hc1 : ~ (cov == 1)%Q).
+  { intro E. rewrite E in H1. exact (Qlt_irrefl _ H1). }
+  assert (Hc0 : ~ (cov == 0)%Q).
+  { intro E. rewrite E in H0. exact (Qlt_irrefl _ H0). }
+  assert (Hn0 : ~ (inject_Z (Z.of_N n) == 0)%Q).
+  { unfold Qeq. simpl. lia. }
+  destruct (with_markov_other cov n c Hc1 Hc0) as [Hw _]. rewrite Hw. clear Hw.
+  rewrite dict_set_absent by exact Hnot.
+  eexists. split.
+  - apply calc_probs_value_conv. apply in_or_app. right. left. reflexivity.
+  - simpl ndiv. rewrite total_Q_snoc, Ht. field. split; [assumption|].
+    intro E. apply Hn0. rewrite <- E. ring.
+Qed.
+
+(* ================================================================ E. base structures *)
+
+Lemma count_structs_snoc : forall pws ls,
+  count_structs (pws ++ [ls]) = count_one (count_structs pws) ls.
+Proof. intros pws ls. unfold count_structs. rewrite fold_left_app. reflexivity. Qed.
+
+Theorem count_structs_raw_is_tally : forall pws,
+  sc_raw (count_structs pws) = tally (map structure pws).
+Proof.
+  induction pws as [|ls pws IH] using rev_ind.
+  - reflexivity.
+  - rewrite count_structs_snoc, map_app. simpl. rewrite tally_snoc, IH. reflexivity.
+Qed.
+
+Theorem count_structs_base_is_tally : forall pws,
+  sc_base (count_structs pws) = tally (map structure (filter supported pws)).
+Proof.
+  induction pws as [|ls pws IH] using rev_ind.
+  - reflexivity.
+  - rewrite count_structs_snoc, filter_app. simpl.
+    destruct (supported ls); simpl.
+    + rewrite map_app. simpl. rewrite tally_snoc, IH. reflexivity.
+    + rewrite app_nil_r. exact IH.
+Qed.
+
+Theorem count_structs_prince_is_tally : forall pws,
+  sc_prince (count_structs pws) = tally (List.concat pws).
+Proof.
+  induction pws as [|ls pws IH] using rev_ind.
+  - reflexivity.
+  - rewrite count_structs_snoc, concat_app. simpl. rewrite app_nil_r, IH.
+    unfold tally. rewrite fold_left_app. reflexivity.
+Qed.
+
+Theorem count_structs_base : forall pws s,
+  In s (map fst (sc_base (count_structs pws))) ->
+  exists ls, In ls pws /\ supported ls = true /\ s = structure ls.
+Proof.
+  intros pws s H. rewrite count_structs_base_is_tally in H.
+  apply (proj1 (tally_keys_in _ _)) in H. apply in_map_iff in H.
+  destruct H as [ls [E Hin]]. apply filter_In in Hin. destruct Hin as [Hin Hs].
+  exists ls. auto.
+Qed.
+
+Theorem count_structs_base_all : forall pws ls,
+  In ls pws -> supported ls = true ->
+  In (structure ls) (map fst (sc_base (count_structs pws))).
+Proof.
+  intros pws ls Hin Hs. rewrite count_structs_base_is_tally.
+  apply (proj2 (tally_keys_in _ _)). apply in_map. apply filter_In. auto.
+Qed.
+
+Theorem count_structs_raw_all : forall pws ls,
+  In ls pws -> In (structure ls) (map fst (sc_raw (count_structs pws))).
+Proof.
+  intros pws ls Hin. rewrite count_structs_raw_is_tally.
+  apply (proj2 (tally_keys_in _ _)). apply in_map. exact Hin.
+Qed.
+
+Definition wf_label (l : str) : bool :=
+  match l with
+  | c :: ds => forallb (fun d => (48 <=? d)%N && (d <=? 57)%N) ds
+  | [] => false
+  end.
+
+Lemma label_no_EW : forall l x,
+  wf_label l = true -> unsupported_label l = false -> In x l -> x <> 69%N /\ x <> 87%N.
+Proof.
+  intros l x Hw Hu Hin. destruct l as [|c ds]; [contradiction|].
+  simpl in Hw, Hu. apply orb_false_iff in Hu. destruct Hu as [H87 H69].
+  apply N.eqb_neq in H87. apply N.eqb_neq in H69.
+  destruct Hin as [Hin|Hin].
+  - subst x. split; assumption.
+  - rewrite forallb_forall in Hw. specialize (Hw x Hin).
+    apply andb_true_iff in Hw. destruct Hw as [Ha Hb].
+    apply N.leb_le in Ha. apply N.leb_le in Hb. lia.
+Qed.
+
+Lemma supported_structure_chars : forall ls x,
+  forallb wf_label ls = true -> supported ls = true -> In x (structure ls) ->
+  x <> 69%N /\ x <> 87%N.
+Proof.
+  unfold structure, supported.
+  induction ls as [|l ls IH]; intros x Hw Hs Hin; simpl in *.
+  - contradiction.
+  - apply andb_true_iff in Hw. destruct Hw as [Hw1 Hw2].
+    apply andb_true_iff in Hs. destruct Hs as [Hs1 Hs2].
+    apply negb_true_iff in Hs1.
+    apply in_app_or in Hin. destruct Hin as [Hin|Hin].
+    + eapply label_no_EW; eassumption.
+    + apply IH; assumption.
+Qed.
+
+Theorem supported_no_EW : forall ls,
+  forallb wf_label ls = true -> supported ls = true ->
+  ~ In 69%N (structure ls) /\ ~ In 87%N (structure ls).
+Proof.
+  intros ls Hw Hs. split; intro Hin;
+    destruct (supported_structure_chars ls _ Hw Hs Hin) as [A B]; congruence.
+Qed.
+
+Theorem unsupported_has_EW : forall ls,
+  supported ls = false -> In 69%N (structure ls) \/ In 87%N (structure ls).
+Proof.
+  unfold structure, supported.
+  induction ls as [|l ls IH]; simpl; intro H.
+  - discriminate.
+  - apply andb_false_iff in H. destruct H as [H|H].
+    + apply negb_false_iff in H. destruct l as [|c ds]; [discriminate|].
+      simpl in H. apply orb_true_iff in H. destruct H as [H|H]; apply N.eqb_eq in H; subst c.
+      * right. left. reflexivity.
+      * left. left. reflexivity.
+    + destruct (IH H) as [A|A]; [left|right]; apply in_or_app; right; exact A.
+Qed.
+
+(* ================================================================ F. files *)
+
+Theorem save_indexed_names : forall (O : numops) old (cs : list (str * counter O)),
+  map fst (save_indexed old cs) = filename_list cs.
+Proof.
+  intros O old cs. unfold save_indexed, filename_list. rewrite map_map. reflexivity.
+Qed.
+
+Theorem save_indexed_wipes : forall (O : numops) old old' (cs : list (str * counter O)),
+  save_indexed old cs = save_indexed old' cs.
+Proof. reflexivity. Qed.
+
+Lemma file_name_inj : forall a b, file_name a = file_name b -> a = b.
+Proof. intros a b H. unfold file_name in H. eapply app_inv_tail. exact H. Qed.
+
+Lemma NoDup_map_inj : forall {A B} (f : A -> B) l,
+  (forall a b, f a = f b -> a = b) -> NoDup l -> NoDup (map f l).
+Proof.
+  intros A B f l Hf H. induction H as [|a l Hn Hd IH]; simpl.
+  - constructor.
+  - constructor; [|exact IH]. intro Hin. apply in_map_iff in Hin.
+    destruct Hin as [b [E Hb]]. apply Hf in E. subst. contradiction.
+Qed.
+
+Theorem save_indexed_names_nodup : forall (O : numops) old (cs : list (str * counter O)),
+  NoDup (map fst cs) -> NoDup (map fst (save_indexed old cs)).
+Proof.
+  intros O old cs H. rewrite save_indexed_names. unfold filename_list.
+  rewrite <- (map_map fst file_name). apply NoDup_map_inj; [apply file_name_inj|exact H].
+Qed.
+
+(* ================================================================ examples *)
+
+(* five items, "A1" and "D2" tie with two occurrences each, "O1" once *)
+Definition ex_items : list str :=
+  [[65;49]; [68;50]; [65;49]; [79;49]; [68;50]]%N.
+
+Example ex_tally : tally ex_items = [([65;49], 2); ([68;50], 2); ([79;49], 1)]%N.
+Proof. vm_compute. reflexivity. Qed.
+
+(* the tie keeps insertion order, the probabilities are 2/5, 2/5, 1/5 and sum to 1 *)
+Example ex_calc_probs :
+  map fst (calc_probs (@of_counts QNum (tally ex_items))) = [[65;49]; [68;50]; [79;49]]%N
+  /\ forallb (fun pq => Qeq_bool (fst pq) (snd pq))
+       (combine (map snd (calc_probs (@of_counts QNum (tally ex_items))))
+                [2 # 5; 2 # 5; 1 # 5]%Q) = true
+  /\ Qeq_bool (qsum (map snd (calc_probs (@of_counts QNum (tally ex_items))))) 1 = true.
+Proof. vm_compute. repeat split; reflexivity. Qed.
+
+(* the hypotheses of tally_probability_Q / calc_probs_sum_one_Q /
+   calc_probs_sorted_Q hold on the instance *)
+Example ex_hyps :
+  ex_items <> []
+  /\ ~ (total (@of_counts QNum (tally ex_items)) == 0)%Q
+  /\ (0 < total (@of_counts QNum (tally ex_items)))%Q.
+Proof.
+  split; [discriminate|]. split; vm_compute; [discriminate|reflexivity].
+Qed.
+
+(* the hypotheses of markov_probability_Q hold with coverage 3/5 on the same
+   counter; the M entry (pseudo-count 10/3, so it sorts first) then has
+   probability 2/5 = 1 - 3/5 *)
+Example ex_markov :
+  (0 < 3 # 5)%Q /\ (3 # 5 < 1)%Q /\ (0 < 5)%N
+  /\ ~ In M_key (map fst (@of_counts QNum (tally ex_items)))
+  /\ (total (@of_counts QNum (tally ex_items)) == inject_Z (Z.of_N 5))%Q
+  /\ exists p, In (M_key, p) (calc_probs (@with_markov QNum (3 # 5)%Q 5%N (@of_counts QNum (tally ex_items))))
+               /\ Qeq_bool p (2 # 5) = true.
+Proof.
+  split; [reflexivity|]. split; [reflexivity|]. split; [reflexivity|].
+  split.
+  { apply existsb_str_eqb_notin. vm_compute. reflexivity. }
+  split; [vm_compute; reflexivity|].
+  eexists. split.
+  - vm_compute. left. reflexivity.
+  - vm_compute. reflexivity.
+Qed.
+
+(* the hypothesis of most_common_stable is satisfiable: the class "count == 2" *)
+Example ex_stable_hyp :
+  forall a b : Q, nltb QNum a b = true ->
+    Qeq_bool a 2 = true -> Qeq_bool b 2 = false.
+Proof.
+  simpl. intros a b Hlt Ha. apply Qeq_bool_iff in Ha.
+  apply Qeq_bool_false. intro Hb.
+  apply negb_true_iff in Hlt.
+  assert (Hle : (b <= a)%Q) by (rewrite Ha, Hb; apply Qle_refl).
+  apply Qle_bool_iff in Hle. congruence.
+Qed.
